@@ -6,29 +6,29 @@ import (
 	"go.opentelemetry.io/otel/trace"
 )
 
-func refLowerHex(c byte) bool {
+func c03RefLowerHex(c byte) bool {
 	return vndOr(vndAnd(c >= '0', c <= '9'), vndAnd(c >= 'a', c <= 'f'))
 }
 
-func refHexRun(s string) bool {
+func c03RefHexRun(s string) bool {
 	ok := true
 	for i := 0; i < len(s); i++ {
-		ok = vndAnd(ok, refLowerHex(s[i]))
+		ok = vndAnd(ok, c03RefLowerHex(s[i]))
 	}
 	return ok
 }
 
-func hexVal(c byte) byte {
+func c03HexVal(c byte) byte {
 	return vndIteU8(c <= '9', c-'0', c-'a'+10)
 }
 
-// refTraceparent: the W3C grammar for the versions the code accepts.
-func refTraceparent(h string) bool {
+// c03RefTraceparent: the W3C grammar for the versions the code accepts.
+func c03RefTraceparent(h string) bool {
 	if len(h) < 55 {
 		return false
 	}
-	ok := vndAnd(refHexRun(h[0:2]), vndAnd(h[2] == '-', vndAnd(refHexRun(h[3:35]), vndAnd(h[35] == '-',
-		vndAnd(refHexRun(h[36:52]), vndAnd(h[52] == '-', refHexRun(h[53:55])))))))
+	ok := vndAnd(c03RefHexRun(h[0:2]), vndAnd(h[2] == '-', vndAnd(c03RefHexRun(h[3:35]), vndAnd(h[35] == '-',
+		vndAnd(c03RefHexRun(h[36:52]), vndAnd(h[52] == '-', c03RefHexRun(h[53:55])))))))
 	notFF := vndNot(vndAnd(h[0] == 'f', h[1] == 'f'))
 	ok = vndAnd(ok, notFF)
 	v0 := vndAnd(h[0] == '0', h[1] == '0')
@@ -44,7 +44,7 @@ func refTraceparent(h string) bool {
 
 // HarnessC03Extract: arbitrary traceparent bytes of every length up to N.
 func HarnessC03Extract() {
-	checkExtract(vndString(vndParam("N", 8)))
+	c03CheckExtract(vndString(vndParam("N", 8)))
 }
 
 // HarnessC03ExtractFull: full-length headers built from a valid one.
@@ -56,7 +56,7 @@ func HarnessC03ExtractFull() {
 		for _, i := range []int{0, 1, 2, 35, 52, 53, 54} {
 			base[i] = vndU8()
 		}
-		checkExtract(string(base) + vndString(1))
+		c03CheckExtract(string(base) + vndString(1))
 		return
 	}
 	switch vndChoice(3) {
@@ -66,10 +66,10 @@ func HarnessC03ExtractFull() {
 		copy(base[36:52], "0000000000000000")
 	}
 	base[3+vndChoice(49)] = vndU8()
-	checkExtract(string(base))
+	c03CheckExtract(string(base))
 }
 
-func checkExtract(h string) {
+func c03CheckExtract(h string) {
 	c := MapCarrier{traceparentHeader: h}
 	sc := TraceContext{}.extract(c)
 	if !sc.IsValid() {
@@ -78,18 +78,18 @@ func checkExtract(h string) {
 		return
 	}
 	vndReach("accepted")
-	vndAssert(refTraceparent(h), "accepted-traceparent-conforms-to-grammar")
+	vndAssert(c03RefTraceparent(h), "accepted-traceparent-conforms-to-grammar")
 	if len(h) < 55 {
 		return
 	}
 	tid, sid := sc.TraceID(), sc.SpanID()
 	for i := 0; i < 16; i++ {
-		vndAssert(tid[i] == hexVal(h[3+2*i])<<4|hexVal(h[4+2*i]), "trace-id-decoded-exactly")
+		vndAssert(tid[i] == c03HexVal(h[3+2*i])<<4|c03HexVal(h[4+2*i]), "trace-id-decoded-exactly")
 	}
 	for i := 0; i < 8; i++ {
-		vndAssert(sid[i] == hexVal(h[36+2*i])<<4|hexVal(h[37+2*i]), "span-id-decoded-exactly")
+		vndAssert(sid[i] == c03HexVal(h[36+2*i])<<4|c03HexVal(h[37+2*i]), "span-id-decoded-exactly")
 	}
-	vndAssert(sc.IsSampled() == (hexVal(h[54])&1 == 1), "sampled-is-bit-0")
+	vndAssert(sc.IsSampled() == (c03HexVal(h[54])&1 == 1), "sampled-is-bit-0")
 	vndAssert(sc.IsRemote(), "extracted-context-is-remote")
 	// re-inject: canonical version-00 header with the same ids
 	out := MapCarrier{}
@@ -98,7 +98,7 @@ func checkExtract(h string) {
 	vndAssert(len(o) == 55, "reinject-length-55")
 	if len(o) == 55 {
 		vndAssert(vndAnd(o[0] == '0', o[1] == '0'), "reinject-version-00")
-		vndAssert(refTraceparent(o), "reinject-conforms-to-grammar")
+		vndAssert(c03RefTraceparent(o), "reinject-conforms-to-grammar")
 		vndAssert(o[3:52] == h[3:52], "reinject-same-ids")
 		vndAssert(o[53] == '0', "reinject-flags-high-nibble-zero")
 		vndAssert((o[54] == '1') == sc.IsSampled(), "reinject-sampled-flag")
@@ -108,7 +108,7 @@ func checkExtract(h string) {
 // a bad tracestate never invalidates a good traceparent
 func HarnessC03ExtractState() {
 	a, b, f := vndStringN(1), vndStringN(1), vndStringN(1)
-	vndAssume(vndAnd(refHexRun(a), vndAnd(refHexRun(b), refHexRun(f))))
+	vndAssume(vndAnd(c03RefHexRun(a), vndAnd(c03RefHexRun(b), c03RefHexRun(f))))
 	h := "00-0af7651916cd43dd8448eb211c8031" + a + "9-00f067aa0ba902b" + b + "-0" + f
 	t := vndString(vndParam("TN", 4))
 	sc1 := TraceContext{}.extract(MapCarrier{traceparentHeader: h})
